@@ -435,7 +435,6 @@ func checkC15(c *Check) {
 	}
 }
 
-
 // c15Refusal: the expression is a check result carrying a reason – X.Apply(CheckResult{Reason: non-nil}), a
 // CheckResult literal with a non-nil Reason, or a call of a function of the same package all of whose returns are.
 func c15Refusal(p *Prog, fi *FuncInfo, info *types.Info, e ast.Expr, depth int) bool {
